@@ -13,7 +13,7 @@ ALPHABETS = [
     (0.25, 1.0, 4.0),
 ]
 SCALES = [1.0, 1e-3, 1e3]
-FOURTH = [6.0, 0.75, 5.0, 0.02, 4.0, 9.0]
+FOURTH = [7.0, 0.9, 5.0, 0.02, 4.5, 10.0]  # chosen so that no value falls on a level boundary of the watershed discretisation for the level counts used (a tie there is a dont-care and would empty the 4-value products)
 
 
 def alphabet(seed: int, n: int = 3, scaled: bool = True):
